@@ -7,7 +7,6 @@ import (
 	"fmt"
 	"io"
 	"net"
-	"os"
 	"runtime"
 	"strings"
 	"sync"
@@ -32,7 +31,8 @@ var (
 	errClosing = fmt.Errorf("fchan: %w", channel.ErrClosed)
 	errOther   = errors.New("fchan: transport failure")
 	// a failure that reports Timeout() and Temporary(), as a read deadline or ETIMEDOUT does: a failure like any other
-	errTimeout error = &net.OpError{Op: "read", Net: "fchan", Err: os.ErrDeadlineExceeded}
+	// (same text as errOther: the client quotes the text of the failure in the errors it hands out)
+	errTimeout error = timeoutFailure{}
 )
 
 // fchan is the instrumented in-memory channel handed to the server (or client)
@@ -226,3 +226,11 @@ func firstByte(b []byte) byte {
 }
 
 var _ = io.EOF
+
+type timeoutFailure struct{}
+
+func (timeoutFailure) Error() string   { return errOther.Error() }
+func (timeoutFailure) Timeout() bool   { return true }
+func (timeoutFailure) Temporary() bool { return true }
+
+var _ net.Error = timeoutFailure{}
